@@ -54,7 +54,7 @@ def case(rep, drv, rnd, i, tier):
     raise_case = rnd.random() < 0.25
     for (name, arity) in subset:
         rows = [progcheck.source_to_model_row(c[1]) for c in prog if (c[0], len(c[1])) == (name, arity)]
-        style = rnd.choice(['explicit', 'inferred', 'variadic', 'inferred-default', 'inferred-star'] if arity else ['explicit', 'inferred', 'variadic'])
+        style = rnd.choice(['explicit', 'inferred', 'variadic', 'inferred-default', 'inferred-star', 'partial'] if arity else ['explicit', 'inferred', 'variadic'])
         if twin == (name, arity):
             style = 'variadic'
         yv = rnd.choice([True, False])
